@@ -9,6 +9,7 @@ import PwVerif.Model.Create
 import PwVerif.Model.Contexts
 import PwVerif.Gen.RunLoops
 import PwVerif.Gen.Forward
+import PwVerif.Gen.PoolReset
 /-!
 Line-protocol driver: `lake env lean --run PwVerif/Driver.lean < cases.txt`.
 One case per input line, one canonical observation per output line. Used by the
@@ -227,24 +228,51 @@ def parseEv (t : String) : Option Ev :=
 
 def csv (l : List Nat) : String := ",".intercalate (l.map toString)
 
+def showSt (s : St) : String :=
+  let o := match outcome s with
+    | .waiting => "running"
+    | .returned _ => "returned"
+    | .poolError _ => "poolerror"
+    | .internal .popEmpty => "internal:IndexError"
+    | .internal .outOfFuel => "livelock"
+  o ++ " ret=" ++ csv s.ret ++ " enq=" ++ ",".intercalate (s.enq.map fun (w, i) => toString w ++ ":" ++ toString i)
+    ++ " closed=" ++ csv ((List.range s.ws.length).filter fun k => (getW s k).closed)
+
+/-- later runs on the same pool: `|| <inputs> <pre...> | <evs...>` repeated -/
+partial def laterRuns (c : Cfg) (s : St) (args : List String) : Option (List String) :=
+  match args with
+  | [] => some []
+  | inputs :: rest =>
+    let seg := rest.takeWhile (· ≠ "||")
+    let more := (rest.dropWhile (· ≠ "||")).drop 1
+    let pre := seg.takeWhile (· ≠ "|")
+    let evs := (seg.dropWhile (· ≠ "|")).drop 1
+    match parseNats inputs, pre.mapM parseEv, evs.mapM parseEv with
+    | some inputs, some pre, some evs =>
+      let s0 := resetFor PwVerif.Gen.poolReset s inputs
+      if !usable s0 then
+        -- `run()` returns None at once: nothing changes
+        (laterRuns c s more).map (("noworkers ret= enq= closed=" ++ csv ((List.range s.ws.length).filter fun k => (getW s k).closed)) :: ·)
+      else
+        let s' := runEvents c pickFirst (nextRun c pickFirst PwVerif.Gen.poolReset s inputs pre) evs
+        (laterRuns c s' more).map (showSt s' :: ·)
+    | _, _, _ => none
+
 def run (args : List String) : String :=
   match args with
-  | retry :: extra :: rr :: n :: inputs :: refused :: evs =>
-    let pre := evs.takeWhile (· ≠ "|")
-    let evs := (evs.dropWhile (· ≠ "|")).drop 1
+  | retry :: extra :: rr :: n :: inputs :: refused :: evs0 =>
+    let first := evs0.takeWhile (· ≠ "||")
+    let later := (evs0.dropWhile (· ≠ "||")).drop 1
+    let pre := first.takeWhile (· ≠ "|")
+    let evs := (first.dropWhile (· ≠ "|")).drop 1
     match extra.toNat?, n.toNat?, parseNats inputs, parsePairs refused, evs.mapM parseEv, pre.mapM parseEv with
     | some extra, some n, some inputs, some refused, some evs, some pre =>
       let c : Cfg := { retry := retry == "1", extra := extra, returnResults := rr == "1",
                        refuse := fun w i => refused.any (· == (w, i)) }
       let s := runEvents c pickFirst (start c pickFirst n inputs pre) evs
-      let o := match outcome s with
-        | .waiting => "running"
-        | .returned _ => "returned"
-        | .poolError _ => "poolerror"
-        | .internal .popEmpty => "internal:IndexError"
-        | .internal .outOfFuel => "livelock"
-      o ++ " ret=" ++ csv s.ret ++ " enq=" ++ ",".intercalate (s.enq.map fun (w, i) => toString w ++ ":" ++ toString i)
-        ++ " closed=" ++ csv ((List.range s.ws.length).filter fun k => (getW s k).closed)
+      match laterRuns c s later with
+      | some outs => " || ".intercalate (showSt s :: outs)
+      | none => "bad-op"
     | _, _, _, _, _, _ => "bad-op"
   | _ => "bad-op"
 end PoolIO
